@@ -3,6 +3,7 @@ CONSTANTS
   MaxDepth = 2
   SampleSize = 600
   NegUnionFlipsEach = FALSE
+  NegNestedUnionFlips = FALSE
   FalsyObjs = {"o1", "o2", "o3", "o4"}
   OperandTruthFilter = TRUE
 SPECIFICATION Spec
